@@ -384,14 +384,12 @@ Definition submit (e : env) (st : state) (from : string) (from_valid : bool) (in
             match sget (s_res st) k with
             | Some _ => (st, RErr)
             | None =>
-              match i_sig i with
-              | None => (st, RErr)
-              | Some _ =>
-                if negb (String.eqb (i_hash i) "") || negb (resp_is_nil (i_resp i)) then (st, RErr)
-                else if cur >? t_start t + t_resp t then (st, RErr)
-                else (with_res st (sset (s_res st) k
-                        (mkRes (i_op i) 0 RNil (sig_stored (i_sig i)) (i_task i) (i_id i) (i_stage i))), ROk)
-              end
+              (* len(info.BlsSignature) == 0: a nil AND an explicitly encoded empty signature are rejected *)
+              if String.eqb (sig_bytes (i_sig i)) "" then (st, RErr)
+              else if negb (String.eqb (i_hash i) "") || negb (resp_is_nil (i_resp i)) then (st, RErr)
+              else if cur >? t_start t + t_resp t then (st, RErr)
+              else (with_res st (sset (s_res st) k
+                      (mkRes (i_op i) 0 RNil (sig_stored (i_sig i)) (i_task i) (i_id i) (i_stage i))), ROk)
             end
           else if String.eqb (i_stage i) "2" then
             if resp_is_nil (i_resp i) then (st, RErr)
@@ -483,77 +481,68 @@ Fixpoint group_heads (l : list res_info) (seen : list res_info) : list res_info 
 
 Definition has_sig (r : res_info) : bool := match r_sig r with Some _ => true | None => false end.
 
-(* GetOperatorOptedUSDValue(avs, operator).ActiveUSDValue: 0 when not opted in; a missing record is an error
-   whose zero-value decimal is then added -> nil dereference *)
+(* GetOperatorOptedUSDValue(avs, operator).ActiveUSDValue: 0 when not opted in; None = the lookup returns an error *)
 Definition active_power (st : state) (op_usd : list (string * Z)) (avs operator : string) : option Z :=
   if negb (opted_active st operator avs) then Some 0 else assoc op_usd (join2 avs operator).
 
-Fixpoint powers_of (st : state) (op_usd : list (string * Z)) (avs : string) (l : list res_info)
-  : option (list (string * Z)) :=
+(* a result whose power lookup fails (or is negative) is skipped AFTER its operator was appended to the signer list *)
+Fixpoint powers_of (st : state) (op_usd : list (string * Z)) (avs : string) (l : list res_info) : list (string * Z) :=
   match l with
-  | [] => Some []
+  | [] => []
   | r :: rest =>
-      match active_power st op_usd avs (r_op r), powers_of st op_usd avs rest with
-      | Some p, Some ps => Some ((r_op r, p) :: ps)
-      | _, _ => None
+      match active_power st op_usd avs (r_op r) with
+      | Some p => if p <? 0 then powers_of st op_usd avs rest else (r_op r, p) :: powers_of st op_usd avs rest
+      | None => powers_of st op_usd avs rest
       end
   end.
 
 Definition uint64_of (z : Z) : Z := Z.abs z mod 2 ^ 64.
 
-(* one group of the epoch hook; None = Go panic *)
-Definition stat_group (st : state) (avs_usd op_usd : list (string * Z)) (members : list res_info) : option state :=
+(* one group of the epoch hook.  A group whose task info or AVS USD value cannot be read is skipped (`continue`):
+   the state is returned unchanged. *)
+Definition stat_group (st : state) (avs_usd op_usd : list (string * Z)) (members : list res_info) : state :=
   let sorted := sort_by r_op members in
   let signed := filter has_sig sorted in
   match signed with
-  | [] => None                                  (* taskInfo == nil, dereferenced *)
+  | [] => st                                    (* GetTaskInfo("0", "") fails: group skipped *)
   | r0 :: _ =>
       let avs := by_task_addr (s_avs st) (r_task r0) in
-      match powers_of st op_usd avs signed with
-      | None => None
-      | Some pows =>
-          match sget (s_tasks st) (join2 (r_task r0) (dec_str (r_id r0))) with
-          | None => None
-          | Some t =>
-              match assoc avs_usd avs with
-              | None => None                    (* IsZero on a nil decimal *)
-              | Some total =>
-                  let signed_ops := map r_op signed in
-                  let ptotal := zsum (map snd pows) in
-                  let actual :=
-                    if negb (total =? 0) && negb (ptotal =? 0)
-                    then uint64_of (dec_mul (dec_quo total ptotal) (dec_of_int 100)) else t_actual t in
-                  let t' := mkTask (t_addr t) (t_name t) (t_hash t) (t_id t) (t_resp t) (t_stat t) (t_chal t) (t_thr t)
-                              (t_start t) actual (t_optin t) signed_ops (difference (t_optin t) signed_ops)
-                              (t_errsigned t) total (Some pows) in
-                  Some (with_tasks st (sset (s_tasks st) (join2 (t_addr t) (dec_str (t_id t))) t'))
-              end
+      let pows := powers_of st op_usd avs signed in
+      match sget (s_tasks st) (join2 (r_task r0) (dec_str (r_id r0))) with
+      | None => st
+      | Some t =>
+          match assoc avs_usd avs with
+          | None => st                          (* GetAVSUSDValue fails: group skipped *)
+          | Some total =>
+              let signed_ops := map r_op signed in
+              let ptotal := zsum (map snd pows) in
+              let actual :=
+                if negb (total =? 0) && negb (ptotal =? 0)
+                then uint64_of (dec_mul (dec_quo total ptotal) (dec_of_int 100)) else t_actual t in
+              let t' := mkTask (t_addr t) (t_name t) (t_hash t) (t_id t) (t_resp t) (t_stat t) (t_chal t) (t_thr t)
+                          (t_start t) actual (t_optin t) signed_ops (difference (t_optin t) signed_ops)
+                          (t_errsigned t) total (Some pows) in
+              with_tasks st (sset (s_tasks st) (join2 (t_addr t) (dec_str (t_id t))) t')
           end
       end
   end.
 
-Fixpoint stat_groups (st0 st : state) (avs_usd op_usd : list (string * Z)) (duel heads : list res_info) : option state :=
+Fixpoint stat_groups (st : state) (avs_usd op_usd : list (string * Z)) (duel heads : list res_info) : state :=
   match heads with
-  | [] => Some st
-  | h :: rest =>
-      match stat_group st avs_usd op_usd (filter (same_group h) duel) with
-      | None => None
-      | Some st' => stat_groups st0 st' avs_usd op_usd duel rest
-      end
+  | [] => st
+  | h :: rest => stat_groups (stat_group st avs_usd op_usd (filter (same_group h) duel)) avs_usd op_usd duel rest
   end.
 
-Definition epoch_hook (st : state) (avs_usd op_usd : list (string * Z)) (id : string) (num : Z) : option state :=
+Definition epoch_hook (st : state) (avs_usd op_usd : list (string * Z)) (id : string) (num : Z) : state :=
   let duel := filter (due st id num) (map snd (s_res st)) in
-  stat_groups st st avs_usd op_usd duel (group_heads duel []).
+  stat_groups st avs_usd op_usd duel (group_heads duel []).
 
-Fixpoint epoch_ends (st : state) (avs_usd op_usd : list (string * Z)) (ended : list (string * Z)) : option state :=
+Fixpoint epoch_ends (st : state) (avs_usd op_usd : list (string * Z)) (ended : list (string * Z)) : state :=
   match ended with
-  | [] => Some st
+  | [] => st
   | (id, num) :: rest =>
-      match epoch_hook st avs_usd op_usd id num with
-      | None => None
-      | Some st' => epoch_ends (with_epochs st' (assoc_set (s_epochs st') id (num + 1))) avs_usd op_usd rest
-      end
+      let st' := epoch_hook st avs_usd op_usd id num in
+      epoch_ends (with_epochs st' (assoc_set (s_epochs st') id (num + 1))) avs_usd op_usd rest
   end.
 
 (* ---------- step ---------- *)
@@ -571,11 +560,7 @@ Definition step (e : env) (st : state) (o : op) : state * result :=
   | OSubmit from from_valid info pk_ok bls_ok => submit e st from from_valid info pk_ok bls_ok
   | OChallenge task caller caller_b task_hash id rh operator op_valid =>
       challenge st task caller caller_b task_hash id rh operator op_valid
-  | OEpochEnd ended avs_usd op_usd =>
-      match epoch_ends st avs_usd op_usd ended with
-      | Some st' => (st', ROk)
-      | None => (st, RPanic)
-      end
+  | OEpochEnd ended avs_usd op_usd => (epoch_ends st avs_usd op_usd ended, ROk)   (* the hook has no panic path left *)
   end.
 
 Definition run (e : env) (st : state) (ops : list op) : state := fold_left (fun s o => fst (step e s o)) ops st.
@@ -789,7 +774,7 @@ Definition phase1_cond (e : env) (st : state) (from : string) (from_valid : bool
   match assoc (s_tasks st) (join2 (i_task i) (dec_str (i_id i))), cur_of st (i_task i) with
   | Some t, Some cur =>
       (match assoc (s_res st) (res_key (i_op i) (i_task i) (i_id i)) with None => true | Some _ => false end) &&  (* only once *)
-      (match i_sig i with Some _ => true | None => false end) &&
+      negb (String.eqb (sig_bytes (i_sig i)) "") &&                                      (* a non-empty signature *)
       String.eqb (i_hash i) "" && resp_is_nil (i_resp i) &&
       (cur <=? t_start t + t_resp t)                                                      (* until the response period ends *)
   | _, _ => false
